@@ -301,6 +301,12 @@ class ClassParser(BaseParser):
     def make_getter(self, field: ParserField):
         def getter(_obj_self: object):
             if field.attname not in _obj_self.__dict__:
+                # a deferred default is calculated when the attribute is accessed (as Schema does)
+                context = getattr(_obj_self, "__context__", None)
+                options = context.options if isinstance(context, RuntimeContext) else self.options
+                deferred_default = field.get_default(options, defer=True)
+                if not unprovided(deferred_default):
+                    return deferred_default
                 raise AttributeError(
                     f"{self.name}: {repr(field.attname)} not provided in schema"
                 )
